@@ -13,7 +13,8 @@ from harness import common as C
 
 RULE = ('hexagonal apertures: grids N in {63,64,127,128,255,256} (odd/even, a few non-square), samplings, rings 1-4, '
         'segment diameters, gaps (gap 0 as a boundary stream), both orientations, exclusion sets (none, centre, random '
-        'subsets), apertures that overflow the array (clamped windows); keystone apertures with 1-3 rings, several segment '
+        'subsets), apertures that overflow the array (clamped windows); EXACTLY touching neighbours (gap 0) on dyadic grids whose '
+        'samples lie on the shared hexagon edges / keystone radii / seams; keystone apertures with 1-3 rings, several segment '
         'counts, gaps and ring rotations; per-segment unit pistons and random coefficient arrays over Zernike / XY bases; '
         'primitives over parameter sweeps (radius, sides 3..12, rotation, centre offset, vanes 1..6, widths) on odd and even '
         'grids; exhaustive window sweeps and ring walks up to the tier bound.  Non-trivial unless rings == 0 or the window '
@@ -104,17 +105,9 @@ def hex_predicates(cfg, x, y, ap):
     dx = cfg['dx']
     rho = cfg['D'] / math.sqrt(3)
     if count.max() > 1:
+        # also with zero separation (shared edges sampled exactly) a sample belongs to at most ONE segment
         ov = np.argwhere(count > 1)
-        if cfg['gap'] > 0:
-            bad.append(f'{len(ov)} samples belong to two segments, e.g. index {ov[0].tolist()}')
-        else:
-            # gap 0: shared edges; only samples on the common boundary may be claimed twice
-            for (i, j) in ov[:50]:
-                p = (x[i, j], y[i, j])
-                d = min(abs(_hex_edge_distance(cfg, c, p)) for c in ap.all_centers)
-                if d > 10 * MARGIN * max(1.0, rho):
-                    bad.append(f'gap 0: sample {[int(i), int(j)]} is in two segments and not on a shared edge')
-                    break
+        bad.append(f'{len(ov)} samples belong to two segments, e.g. index {ov[0].tolist()}' + (' (gap 0: samples on a shared edge)' if cfg['gap'] == 0 else ''))
     # local coordinates handed to the OPD bases: the grid restricted to the window, relative to the segment centre
     for sid, c, win, (lx, ly) in zip(ids, ap.all_centers, ap.windows, ap.local_coords):
         if lx.shape != x[win].shape or not (np.allclose(lx, x[win] - c[0], rtol=0, atol=1e-12 * max(1.0, abs(c[0])))
@@ -239,6 +232,18 @@ def opd_predicates(ap, rng, kind='hex', cart=False):
         cc[0] = 1.0                                # Noll 1: piston on the central disc
         out = onto_background('piston on the centre segment', zero, cc)
         confined('the centre segment', out, ap.center_window, ap.center_mask, exact=True)
+    # tiling: a unit piston on EVERY segment at once composes to at most 1 everywhere (2 would mean a sample claimed twice)
+    c_all = zero.copy()
+    c_all[:, 0] = 1.0
+    cc_all = None
+    if kind != 'hex':
+        cc_all = np.zeros(ncen)
+        cc_all[0] = 1.0
+    allp = compose(c_all, cc_all)
+    if allp.max() > 1 + 1e-12:
+        w_ = np.argwhere(allp > 1 + 1e-12)
+        bad.append(f'a unit piston on every segment composes to {allp.max():.6g} at {len(w_)} samples (e.g. index {w_[0].tolist()}): '
+                   f'those samples belong to more than one segment')
     # linearity, and accumulation in two steps through the caller's buffer
     c1 = rng.normal(size=(nseg, nm))
     c2 = rng.normal(size=(nseg, nm))
@@ -275,6 +280,16 @@ def key_config(rng, i):
     return {'n': n, 'diameter': diam, 'ccd': ccd, 'rings': rings, 'spr': spr, 'ring_radius': rr, 'gap': gap, 'rotation': rot}
 
 
+# make_xy_grid(n, diameter=d) with dyadic dx; centre radius and ring widths integer multiples of dx; zero radial and azimuthal gap
+KEY_TOUCH = [
+    {'n': 256, 'diameter': 8.0, 'ccd': 2.0, 'rings': 1, 'spr': [6], 'ring_radius': 1.0, 'gap': 0.0, 'rotation': None},
+    {'n': 256, 'diameter': 8.0, 'ccd': 2.0, 'rings': 2, 'spr': [4, 8], 'ring_radius': 1.0, 'gap': 0.0, 'rotation': None},
+    {'n': 128, 'diameter': 8.0, 'ccd': 2.0, 'rings': 3, 'spr': [6, 12, 16], 'ring_radius': 0.5, 'gap': 0.0, 'rotation': [0.0, 15.0, 0.0]},
+    {'n': 255, 'diameter': 7.96875, 'ccd': 1.5, 'rings': 2, 'spr': [8, 8], 'ring_radius': 1.25, 'gap': 0.0, 'rotation': [45.0, 0.0]},
+    {'n': 64, 'diameter': 8.0, 'ccd': 2.0, 'rings': 2, 'spr': [5, 3], 'ring_radius': 0.75, 'gap': 0.0, 'rotation': [90.0, 30.0]},
+]
+
+
 def build_key(cfg):
     sg, ge, co, po = _impl()
     x, y = co.make_xy_grid(cfg['n'], diameter=cfg['diameter'])
@@ -295,6 +310,9 @@ def key_predicates(cfg, x, y, ap):
         count[win] += m
     if count.max() > 1:
         bad.append(f'{int((count > 1).sum())} samples belong to two segments')
+    if count.max() > 1:
+        w_ = np.argwhere(count > 1)
+        bad[-1] += f', e.g. index {w_[0].tolist()} (r = {np.hypot(x, y)[tuple(w_[0])]:.9g}, claimed by {int(count.max())} segments)'
     miss = ap.amp & (count == 0)
     if miss.any():
         bad.append(f'{int(miss.sum())} transmitting samples of the aperture mask belong to no segment')
@@ -447,8 +465,14 @@ def correspondence(ctx):
     # ---------------- hexagonal apertures
     nhex = ctx.scale(60, 1500)
     hexes = []
-    for i in range(nhex):
-        cfg = hex_config(rng, i, ctx.thorough)
+    # EXACTLY TOUCHING hexagons on dyadic grids: flat-to-flat diameter an integer number of samples, zero separation, so that the
+    # shared edges run exactly through samples (both orientations, with and without exclusions)
+    touch = [{'shape': [128, 128], 'dx': 1 / 32, 'rings': 2, 'D': 0.5, 'gap': 0.0, 'rot': 90, 'exclude': []},
+             {'shape': [128, 128], 'dx': 1 / 32, 'rings': 2, 'D': 0.5, 'gap': 0.0, 'rot': 0, 'exclude': [0]},
+             {'shape': [64, 65], 'dx': 1 / 16, 'rings': 1, 'D': 1.0, 'gap': 0.0, 'rot': 90, 'exclude': [3]},
+             {'shape': [127, 127], 'dx': 1 / 32, 'rings': 3, 'D': 0.375, 'gap': 0.0, 'rot': 0, 'exclude': []}]
+    for i in range(nhex + len(touch)):
+        cfg = hex_config(rng, i, ctx.thorough) if i < nhex else dict(touch[i - nhex])
         try:
             x, y, ap = build_hex(cfg)
             err = None
@@ -723,9 +747,12 @@ def correspondence(ctx):
             ctx.pred_fail('regular_polygon', case, b)
 
     # ---------------- keystone apertures
-    for i in range(ctx.scale(12, 240)):
-        cfg = key_config(rng, i)
-        ctx.case('keystone', cfg, tag=f'rings{cfg["rings"]}')
+    nkey = ctx.scale(12, 240)
+    for i in range(nkey + len(KEY_TOUCH) * ctx.scale(1, 3)):
+        # EXACTLY TOUCHING neighbours: gap == 0 on dyadic grids whose samples fall exactly on the shared radii (radii = integer
+        # multiples of dx) and on the seams (axes, diagonals); every sample must still belong to at most one segment
+        cfg = key_config(rng, i) if i < nkey else dict(KEY_TOUCH[(i - nkey) % len(KEY_TOUCH)])
+        ctx.case('keystone', cfg, tag=f'rings{cfg["rings"]}' + ('/touching' if cfg['gap'] == 0 else ''))
         try:
             x, y, ap = build_key(cfg)
         except Exception as ex:
